@@ -1096,6 +1096,9 @@ def _r12_tunnelling(ctx, pkg):
                 conds += n.ifs
             elif isinstance(n, _ast.Return) and n.value is not None and isinstance(n.value, (_ast.Compare, _ast.BoolOp)) and k not in uses_q:
                 conds.append(n.value)          # a predicate helper: what it returns IS the condition
+            elif isinstance(n, _ast.Call):
+                # a test handed over as an argument (`_Reactant(eb, mass, re1.name in ["GH", "GH2"])`): decided where it is read
+                conds += [a for a in list(n.args) + [kw.value for kw in n.keywords] if isinstance(a, (_ast.Compare, _ast.BoolOp))]
         atoms = []
         for c in conds:
             todo_ = [c]
